@@ -2,3 +2,5 @@
 //! Kani harnesses over pallas-network (C26, C22, C21, C09 network part).
 #[cfg(kani)]
 mod stubs;
+#[cfg(kani)]
+mod c26;
